@@ -24,7 +24,10 @@ RULE = ("specs for the five kinds: generated from the CRD schema itself (every o
         "oneOf/anyOf alternatives, free-form maps with literals and random CEL), the definitions under "
         "/repo/examples, /repo/docs and dict literals of /repo/tests, and mutations of those: a value of every "
         "other JSON type at a random path, a key removed, unknown keys added, lists/strings/maps over their "
-        "bounds, empty spec, non-dict specs; CEL text in expression-bearing fields comes from a grammar-based "
+        "bounds, empty spec, non-dict specs; Workflows whose steps run cached Logic and hold 1-3 step references "
+        "per expression field (nameless index keys mixed with later/unknown/own labels); ordered pairs in one "
+        "process (a valid spec, then each twin that differs only bool<->int<->float by an ==-equal value at a "
+        "schema-typed path); CEL text in expression-bearing fields comes from a grammar-based "
         "generator (all member/index/call/macro/literal/unary/conditional shapes) plus unparseable text. "
         "Each spec is validated (real vs model), prepared directly and through prepare_and_cache with a cache "
         "holding prepared Functions. Non-trivial = spec is a non-empty dict; distinct by (kind, spec)")
@@ -422,7 +425,9 @@ def cel(rng, d=0) -> str:
         return rng.choice(LITS)
     sub = lambda: cel(rng, d + 1)  # noqa: E731
     shape = rng.choice(["dot", "dot", "index", "index", "call", "method", "macro", "list", "map", "msg", "paren",
-                        "unary", "binop", "binop", "cond", "has", "dotchain", "rootindex"])
+                        "unary", "binop", "binop", "cond", "has", "dotchain", "rootindex", "refs"])
+    if shape == "refs":
+        return multi_ref(rng, force_mix=rng.random() < 0.5)
     if shape == "rootindex":
         # an index directly on a root name, with a literal of every kind (what the dependency patterns see)
         key = rng.choice(LITS + ["''", "'.a'", "'['", "'a.b'", "'a[0]'", "' '", "'steps'", "-1", "1.5", "0.0", "b''"])
@@ -462,6 +467,92 @@ def cel(rng, d=0) -> str:
     if shape == "cond":
         return f"{sub()} ? {sub()} : {sub()}"
     return f"has({rng.choice(ROOTS)}.{rng.choice(FIELDS)}.{rng.choice(FIELDS)})"
+
+
+# ---- expressions that hold SEVERAL references to steps / parent (what the dependency analysis of a
+# ---- Workflow step turns into names: plain, indexed, and indexed with a key that has no plain name)
+
+NAMELESS_KEYS = ["'.a'", "'[x'", "'['", "''", "1.5", ".5", "'.'", "'..b'", "'[0]'", "0.25", "'.a.b'", '".q"']
+REF_LABELS = ["s1_cfg", "s2_step", "s3_a_b", "s4_Z9", "s1_step", "s2_cfg", "later_step", "other_step", "nope", "abc", "one"]
+
+
+def step_ref(rng, labels=None, nameless=None) -> str:
+    """one reference to a step (or to parent): nameless index / plain name / indexed name, with a tail."""
+    labels = labels or REF_LABELS
+    k = rng.random() if nameless is None else (0.0 if nameless else 0.5)
+    root = "steps" if rng.random() < 0.85 else "parent"
+    tail = rng.choice(["", "", ".value", ".a.b", "[0]", "['k']", ".items[0].name"])
+    if k < 0.3:
+        return f"{root}[{rng.choice(NAMELESS_KEYS)}]{tail}"
+    lab = rng.choice(labels)
+    if k < 0.75:
+        return f"{root}.{lab}{tail}"
+    q = rng.choice(["'", '"'])
+    return f"{root}[{q}{lab}{q}]{tail}"
+
+
+def multi_ref(rng, labels=None, n=None, force_mix=False) -> str:
+    """an expression with 2-3 (n) references combined by an operator / literal / call / conditional."""
+    n = n or rng.choice([1, 2, 2, 3, 3])
+    parts = [step_ref(rng, labels) for _ in range(n)]
+    if force_mix and n >= 2:
+        parts[0] = step_ref(rng, labels, nameless=True)
+        parts[1] = step_ref(rng, labels, nameless=False)
+        rng.shuffle(parts)
+    how = rng.choice(["plus", "or", "list", "map", "cond", "call", "eq", "index"])
+    if n == 1:
+        return parts[0]
+    if how == "plus":
+        return " + ".join(parts)
+    if how == "or":
+        return " || ".join(f"has({p})" if "[" not in p and p.count(".") >= 2 else f"{p} == 1" for p in parts)
+    if how == "list":
+        return "[" + ", ".join(parts) + "]"
+    if how == "map":
+        return "{" + ", ".join(f"'k{i}': {p}" for i, p in enumerate(parts)) + "}"
+    if how == "cond":
+        return f"{parts[0]} ? {parts[1]} : {parts[2] if n > 2 else parts[0]}"
+    if how == "call":
+        return " + ".join(f"size({p})" for p in parts)
+    if how == "eq":
+        return f"{parts[0]} == {parts[1]}" + (f" && {parts[2]}" if n > 2 else "")
+    return f"{parts[0]}[{parts[1]}]" + (f".{rng.choice(FIELDS)}[{parts[2]}]" if n > 2 else "")
+
+
+def workflow_refs_spec(rng) -> dict:
+    """A Workflow whose steps run CACHED Logic (so every expression of the step is analysed) and whose
+    expression-bearing fields (inputs / skipIf / forEach.itemIn / state / refSwitch.switchOn) each hold 1-3
+    references to: steps through a key without a plain name, later / unknown / own / earlier labels."""
+    k = rng.randint(1, 4)
+    labels = [f"s{i + 1}_{rng.choice(['cfg', 'step', 'a_b', 'Z9'])}" for i in range(k)]
+    pool = labels + ["later_step", "other_step", "nope"]
+    cached = [("ValueFunction", "vf-ok"), ("ValueFunction", "vf-static"), ("ValueFunction", "vf-pre"),
+              ("ResourceFunction", "rf-ok"), ("Workflow", "wf-ok")]
+    steps = []
+    for i, lab in enumerate(labels):
+        mix = rng.random() < 0.6
+        e = lambda: "=" + multi_ref(rng, pool, force_mix=mix)  # noqa: E731
+        step = {"label": lab}
+        if rng.random() < 0.75:
+            kind, name = rng.choice(cached)
+            step["ref"] = {"kind": kind, "name": name}
+        else:
+            cases = []
+            for ci in range(rng.randint(1, 3)):
+                kind, name = rng.choice(cached)
+                cases.append({"case": f"c{ci}", "kind": kind, "name": name, **({"default": True} if ci == 0 and rng.random() < 0.5 else {})})
+            step["refSwitch"] = {"switchOn": e(), "cases": cases}
+        fields = rng.sample(["inputs", "skipIf", "forEach", "state"], rng.randint(1, 3))
+        if "inputs" in fields:
+            step["inputs"] = {f"i{j}": (e() if rng.random() < 0.8 else {"nested": [e(), 1]}) for j in range(rng.randint(1, 3))}
+        if "skipIf" in fields:
+            step["skipIf"] = e()
+        if "forEach" in fields:
+            step["forEach"] = {"itemIn": e(), "inputKey": "item"}
+        if "state" in fields:
+            step["state"] = {f"st{j}": e() for j in range(rng.randint(1, 2))}
+        steps.append(step)
+    return {"steps": steps}
 
 
 def cel_text(rng, bad=0.0) -> str:
@@ -873,6 +964,52 @@ def targeted(rng, gen: "Gen", schema, spec):
     return set_at(spec, path, d), "targeted:default"
 
 
+def equal_twins(v):
+    """JSON values of ANOTHER JSON type that Python's == (and hash) cannot tell from v: true/1/1.0, false/0/0.0,
+    n/n.0.  (What a memo keyed by equality, an `in` on a list, a dict key ... conflates.)"""
+    if isinstance(v, bool):
+        return [int(v), float(v)]
+    if isinstance(v, int):
+        return ([float(v)] if abs(v) < 2 ** 53 else []) + ([bool(v)] if v in (0, 1) else [])
+    if isinstance(v, float) and v.is_integer() and abs(v) < 2 ** 53:
+        return [int(v)] + ([bool(v)] if v in (0.0, 1.0) else [])
+    return []
+
+
+def twin_pairs(rng, schemas, kind, n_bases):
+    """Ordered pairs for ONE process without any reset in between: a schema-valid spec, then each of its
+    single-value twins that differ only bool<->int<->float (==-equal values) at a path where the schema
+    gives a type.  A twin that violates the schema must be rejected exactly as if it had come first."""
+    produced = 0
+    attempts = 0
+    while produced < n_bases and attempts < 20 * n_bases:
+        attempts += 1
+        g = Gen(rng, bad_cel=0.0, p_opt=0.95, p_expr=0.3)
+        base = g.spec(kind, schemas)
+        sites = [(p, n, v) for p, n, v in schema_sites(schemas[kind], base)
+                 if n["type"] in ("boolean", "integer", "number") and isinstance(v, (bool, int, float))]
+        for p, n, v in sites:                      # integers that a bool can be confused with
+            if n["type"] != "boolean" and rng.random() < 0.7:
+                base = set_at(base, p, rng.choice([0, 1]))
+        if judge_invalid(kind, base):
+            continue
+        sites = [(p, n, get_at(base, p)) for p, n, _ in sites]
+        if not sites and kind != "ResourceTemplate":
+            continue
+        produced += 1
+        yield {"kind": kind, "spec": base, "stream": "pair-base"}
+        for p, n, v in sites:
+            for t in equal_twins(v):
+                yield {"kind": kind, "spec": set_at(base, p, t), "after": base, "stream": "pair-twin"}
+        if kind == "ResourceTemplate" or rng.random() < 0.3:
+            # no typed scalar in this schema / also inside free-form parts: both valid, must behave alike
+            free = [p for p in all_paths(base) if p and isinstance(get_at(base, p), (bool, int, float))
+                    and equal_twins(get_at(base, p))]
+            for p in free[:3]:
+                yield {"kind": kind, "spec": set_at(base, p, equal_twins(get_at(base, p))[0]), "after": base,
+                       "stream": "pair-twin"}
+
+
 NON_DICT = [None, [], [{"steps": []}], "", "spec", "=inputs", 0, 1, True, False, 2.5, 2 ** 70]
 
 
@@ -995,7 +1132,8 @@ def gen_cases(ctx: Ctx, schemas):
     rng = ctx.rng
     for c in corpus_cases("C20"):
         c = c.get("case", c)
-        yield {"kind": c["kind"], "spec": c["spec"], "stream": "corpus"}
+        yield {"kind": c["kind"], "spec": c["spec"], "stream": "corpus",
+               **({"after": c["after"]} if c.get("after") is not None else {})}
     for kind, spec in defect_probes():
         yield {"kind": kind, "spec": spec, "stream": "probe"}
     for kind in KINDS:
@@ -1024,6 +1162,10 @@ def gen_cases(ctx: Ctx, schemas):
 
     scale = 1 if ctx.quick() else 12
     n_valid, n_cel, n_mut = 60 * scale, 60 * scale, 45 * scale
+    for i in range(150 * scale):
+        yield {"kind": "Workflow", "spec": workflow_refs_spec(rng), "stream": "wf-refs"}
+    for kind in KINDS:
+        yield from twin_pairs(rng, schemas, kind, 6 * scale)
     for kind in KINDS:
         for i in range(n_valid):
             g = Gen(rng, bad_cel=0.0, p_opt=rng.choice([0.15, 0.5, 0.9]), p_expr=rng.choice([0.1, 0.5]))
@@ -1091,6 +1233,61 @@ def shrink_spec(spec, still_fails, budget=120):
             if changed or tries >= budget:
                 break
     return spec
+
+
+def diff_path(a, b, pre=()):
+    """path of the first place where two JSON values differ (None if equal, type-sensitively)."""
+    if type(a) is not type(b):
+        return pre
+    if isinstance(a, dict):
+        if list(a) != list(b):
+            return pre
+        for k in a:
+            d = diff_path(a[k], b[k], pre + (k,))
+            if d is not None:
+                return d
+        return None
+    if isinstance(a, list):
+        if len(a) != len(b):
+            return pre
+        for i, (x, y) in enumerate(zip(a, b)):
+            d = diff_path(x, y, pre + (i,))
+            if d is not None:
+                return d
+        return None
+    return None if a == b else pre
+
+
+def shrink_pair(first, second, still_fails, budget=80):
+    """shrink an ordered pair that differs at one path: delete the same key / element from both."""
+    tries = 0
+    changed = True
+    while changed and tries < budget:
+        changed = False
+        d = diff_path(first, second)
+        if d is None:
+            break
+        for p in sorted(all_paths(first), key=len):
+            if not p or p == d[:len(p)] or d == p[:len(d)]:
+                continue
+            if isinstance(p[-1], int) and p[:-1] == d[:len(p) - 1] and p[-1] < d[len(p) - 1]:
+                continue        # would shift the index of the differing element
+            try:
+                c1, c2 = del_at(first, p), del_at(second, p)
+            except Exception:
+                continue
+            tries += 1
+            try:
+                ok = still_fails(c1, c2)
+            except Exception:
+                ok = False
+            if ok:
+                first, second = c1, c2
+                changed = True
+                break
+            if tries >= budget:
+                break
+    return first, second
 
 
 # ==================================================================================================
@@ -1216,6 +1413,14 @@ def check_one(ctx: Ctx, world: World, counters: Counters, case, record=True, shr
     """Run validate + both prepare modes + oracle on one case. Returns (vobs, [gate observations])."""
     kind, spec = case["kind"], case["spec"]
     world.fresh()
+    after = case.get("after")
+    if after is not None:
+        # ordered pair: this spec is offered AFTER `after` was validated and prepared in the same process
+        try:
+            observe_validate(world, kind, after)
+        except Exception:  # noqa: BLE001 - judged when `after` is the case itself
+            pass
+        run_mode(world, counters, kind, after, False)
     invalid = judge_invalid(kind, spec)
     try:
         vobs = observe_validate(world, kind, spec)
@@ -1227,7 +1432,7 @@ def check_one(ctx: Ctx, world: World, counters: Counters, case, record=True, shr
         ctx.fail(Failure(signature=f"{kind}: koreo.schema.validate disagrees with the bundled CRD schema",
                          what=f"koreo.schema.validate {'accepts' if vobs[0] else 'rejects'} a spec that the CRD "
                               f"schema compiled directly with fastjsonschema {'rejects' if invalid else 'accepts'}",
-                         case={"kind": kind, "spec": spec}))
+                         case={"kind": kind, "spec": spec, **({"after": after} if after is not None else {})}))
     gobs = []
     for cached in (False, True):
         obs = run_mode(world, counters, kind, spec, cached)
@@ -1238,14 +1443,25 @@ def check_one(ctx: Ctx, world: World, counters: Counters, case, record=True, shr
             if n_sig >= 3:
                 ctx.count("oracle-failures-not-recorded(repeat of a signature)")
                 continue
-            small = spec
-            if shrink and n_sig == 0:
+            small, small_after = spec, after
+            if shrink and n_sig == 0 and after is not None:
+                def still_pair(cand_after, cand, sig=sig, cached=cached):
+                    if judge_invalid(kind, cand_after):
+                        return False
+                    observe_validate(world, kind, cand_after)
+                    run_mode(world, counters, kind, cand_after, False)
+                    o = run_mode(world, counters, kind, cand, cached)
+                    return any(s == sig for s, _ in oracle(kind, cand, o, cached, judge_invalid(kind, cand)))
+                small_after, small = shrink_pair(after, spec, still_pair)
+            elif shrink and n_sig == 0:
                 def still(cand, sig=sig, cached=cached):
                     o = run_mode(world, counters, kind, cand, cached)
                     return any(s == sig for s, _ in oracle(kind, cand, o, cached, judge_invalid(kind, cand)))
                 small = shrink_spec(spec, still)
-            ctx.fail(Failure(signature=sig, what=what, case={"kind": kind, "spec": small,
-                                                             "mode": "prepare_and_cache" if cached else "prepare"},
+            ctx.fail(Failure(signature=sig, what=what + (" (offered after the ==-equal spec `after` was prepared)"
+                                                         if after is not None else ""),
+                             case={"kind": kind, "spec": small, "mode": "prepare_and_cache" if cached else "prepare",
+                                   **({"after": small_after} if after is not None else {})},
                              observed={k: obs[k] for k in ("cls", "message", "compiles", "lookups", "site")},
                              expected="a prepared resource, or PermFail/Retry with a message; PermFail with no "
                                       "compile/look-up when the spec violates the CRD schema"))
@@ -1338,7 +1554,8 @@ def run(ctx: Ctx):
             if not jsonable_spec(spec):
                 ctx.count("skipped:not-json")
                 continue
-            key = (kind, json.dumps(spec, sort_keys=True, default=repr))
+            key = (kind, json.dumps(spec, sort_keys=True, default=repr),
+                   json.dumps(case.get("after"), sort_keys=True, default=repr) if case.get("after") is not None else "")
             if key in seen:
                 ctx.count("skipped:duplicate")
                 continue
@@ -1375,6 +1592,8 @@ def replay(ctx: Ctx, data):
             ctx.note_case(case, True)
             return
         c = {"kind": case["kind"], "spec": case["spec"], "stream": "replay"}
+        if case.get("after") is not None:
+            c["after"] = case["after"]
         vobs, gobs, invalid = check_one(ctx, world, counters, c, shrink=False)
         ctx.note_case(c, True)
         terms = [(c["kind"], c["spec"], vobs, gobs)] if vobs is not None else []
